@@ -59,14 +59,27 @@ def run_loads(b, cfg, enc, hex_bitmap=False, limit=None) -> Outcome:
     except m["CardutilError"] as ex:
         o.kind = "liberr"
         o.exc_type = type(ex).__name__
-        o.exc_text = str(ex)[:160]
+        try:
+            o.exc_text = str(ex)[:160]     # the tools print the error: it must be printable
+        except Exception as ex2:
+            o.kind = "foreign"
+            o.exc_type = type(ex2).__name__
+            o.exc_text = "str() of the library error raised"
+            o.where = "__str__"
     except Exception as ex:
         o.kind = "foreign"
         o.exc_type = type(ex).__name__
-        o.exc_text = str(ex)[:160]
+        o.exc_text = _safe_str(ex)
         o.where = _where(ex.__traceback__)
     o.steps = bud.steps
     return o
+
+
+def _safe_str(ex):
+    try:
+        return str(ex)[:160]
+    except Exception:
+        return "<unprintable>"
 
 
 def run_reader(image, reader, blocked, enc=None, cfg=None, limit=None, maxlen=None, style="for") -> Outcome:
@@ -126,7 +139,7 @@ def run_reader(image, reader, blocked, enc=None, cfg=None, limit=None, maxlen=No
     except m["MciIpmDataError"] as ex:
         o.kind = "liberr"
         o.exc_type = type(ex).__name__
-        o.exc_text = str(ex)[:160]
+        o.exc_text = _safe_str(ex)
         o.recno = ex.record_number
         o.ctx = ex.binary_context_data
         o.orig_type = type(ex.ex).__name__ if getattr(ex, "ex", None) is not None else None
